@@ -1442,6 +1442,46 @@ func genSrvSoup(p *prng, thorough bool, w *bufio.Writer) {
 			}
 		}
 	}
+	// a peer that goes on sending after a connection error: whichever loop raised it, the octets that keep arriving
+	// must not park anything for good (the reader channel holds 128 frames); the connection handler returns
+	floods := 8
+	if thorough {
+		floods = 60
+	}
+	for i := 0; i < floods; i++ {
+		g.newConn(8, 0, 0)
+		g.settings()
+		var b []byte
+		switch p.intn(5) {
+		case 0: // PRIORITY depending on itself (stream loop)
+			b = frameBytes(2, 0, 1, append(u32(1), 10))
+		case 1: // DATA on an idle stream (stream loop)
+			b = frameBytes(0, 0, 7, []byte("x"))
+		case 2: // WINDOW_UPDATE of 0 on the connection (read loop)
+			b = frameBytes(8, 0, 0, u32(0))
+		case 3: // HEADERS on an even id (read loop)
+			b = frameBytes(1, 5, 2, g.hdrBlock(true))
+		case 4: // a request, then RST_STREAM on an idle id (stream loop), with the request still running
+			b = append(frameBytes(1, 5, 1, g.hdrBlock(true)), frameBytes(3, 0, 9, u32(8))...)
+		}
+		n := []int{0, 100, 129, 140, 300, 1000}[p.intn(6)]
+		for k := 0; k < n; k++ {
+			switch p.intn(3) {
+			case 0:
+				b = append(b, frameBytes(2, 0, uint32(11+2*k), append(u32(0), 10))...)
+			case 1:
+				b = append(b, frameBytes(8, 0, 1, u32(1))...)
+			default:
+				b = append(b, frameBytes(6, 0, 0, []byte{1, 2, 3, 4, 5, 6, 7, 8})...)
+			}
+		}
+		g.line("srv %s burst %s", g.id, hexOrDash(b))
+		g.line("srv %s settle", g.id)
+		if p.chance(1, 2) {
+			g.line("srv %s doneall st=200 hdr=- body=pat:10", g.id)
+			g.line("srv %s settle", g.id)
+		}
+	}
 	// a peer that stops reading, goes on sending and then disconnects, with responses and control replies queued
 	// for it: the write loop is parked in a write, the writer queue fills, the read loop and the stream loop park on
 	// it; when the peer goes every loop has to end and ServeConn has to return (judged by the monitors: `mon` lines)
